@@ -110,3 +110,38 @@ chk("C12", "model_checking",
     "is compared only while no SELECT is in progress; refusal of a literal is covered by C18.",
     "TLA+ spec + TLC exhaustive check; transition-coverage replay against the real client; trace validation of random sessions",
     "DESIGN.md 3 (C12)", "tlc+harness/cmd/client")
+
+chk("C18", "model_checking",
+    "ClientLit.tla specifies which representation of a string / literal argument is legal for what the server advertised (quoted: no CR/LF/NUL, 8-bit only with "
+    "IMAP4rev2 or UTF8=ACCEPT enabled; {n+}: LITERAL+ or LITERAL-/rev2 up to 4096; {n}: always) and the synchronising-literal handshake (payload only after the "
+    "continuation request, never after a tagged refusal, a refusal is local and the connection stays usable); TLC checks the handshake machine. Every case of "
+    "configuration x command x argument class x server reaction (1140) plus random configurations/bytes/lengths around 4096 is executed with a real client against a "
+    "scripted server that records each argument token's representation and the real order of events (the continuation request is held back for a grace period); "
+    "ClientLitTrace judges every record.",
+    "'No payload before +' is observed with a 25 ms grace period: a violation can be missed on a very slow machine, never falsely reported. Only representation and ordering "
+    "are judged here; argument fidelity is C02.",
+    "TLA+ spec + TLC; exhaustive case enumeration executed against the real client; trace validation of recorded token streams and handshake events",
+    "DESIGN.md 3 (C18)", "tlc+harness/cmd/clientlit")
+
+chk("C17", "model_checking",
+    "StartTLS.tla (extending ServerConn) models one direction of a connection as socket bytes, buffered bytes and the layer switch, for every segmentation of "
+    "STARTTLS-line + plaintext suffix, and is model-checked over all catalogue inputs, segmentations and the InsecureAuth x TLSConfig configurations (a deliberately "
+    "faulty design variant must violate NoParseAfterSwitch, which guards against vacuity). Every generated (stream, segmentation) case is re-enacted against the real "
+    "imapserver and imapclient.NewStartTLS with real TLS handshakes; randomised byte-level segmentations from a larger catalogue are recorded event by event and "
+    "trace-validated against the same actions.",
+    "Bounded: <=4 lines per stream, <=4 writes at 4 cut points per line in generated cases; random cases use arbitrary byte cuts; connections start in plaintext (implicit "
+    "TLS is C05). Plaintext behind the switch must not be interpreted; whether the handshake then fails is unconstrained.",
+    "TLA+ spec + TLC; spec-generated conformance cases with real TLS; trace validation with silent steps",
+    "DESIGN.md 3 (C17)", "tlc+harness/cmd/starttls")
+
+chk("C03", "model_checking",
+    "RespSpace.tla / RespSpaceNorm.tla catalogue every structure a backend can hand to the imapserver writers under both configurations (IMAP4rev2 enabled or not) and define "
+    "Norm, the representation changes the protocol itself imposes (17 clauses, each cited). TLC checks Norm idempotent and the catalogue inside the writers' contract and "
+    "prints every case with exp = Norm(data); a real imapclient issues each request against a real imapserver over an in-memory connection while a stub Session writes "
+    "the data through the real writer API, and the delivered values (literals read fully, byte for byte, in wire order) are compared with exp. Random deeper structures "
+    "go through the same pipe and RespSpaceTrace applies Norm to both sides of every recorded (supplied, delivered) pair.",
+    "The Go side holds a port of Norm used only on the delivered side in the generated direction; it is checked against TLC's exp on every case, and TLC alone judges "
+    "recorded cases. Strings are opaque identities (text, or length + fingerprint); numbers above 2^31-1 are symbolic points. CONDSTORE items and UTF8=ACCEPT as a third "
+    "configuration are excluded.",
+    "TLA+ value-space spec + TLC; bounded-exhaustive pairwise catalogue enumeration through real client and server; trace validation of random structures",
+    "DESIGN.md 3 (C03)", "tlc+harness/cmd/respspace")
